@@ -1,14 +1,9 @@
-// ---- shims / placement file of the expr side (specification only; the `//@@` items are extracted from the repository) ------------
+// ---- placement file of the expr side: the `//@@` items are extracted from the repository (kind/mod.rs, kind/lua_operator_kind.rs) ----
 impl LuaOpKind {
     //@@ LuaOpKind::to_unary_operator
     //@@ LuaOpKind::to_binary_operator
 }
 
 impl BinaryOperator {
-    /// `&PRIORITY[*self as usize]` (kind/lua_operator_kind.rs): PRIORITY has 25 entries, BinaryOperator 24 field-less variants, so the
-    /// index is in range (by inspection; an enum-to-integer cast is outside the verifier's dialect). The priorities themselves are
-    /// left uninterpreted: no proof here (termination of the operator loop included) depends on them.
-    #[verifier::external_body]
-    pub fn get_priority(&self) -> (r: &PriorityTable)
-    { unimplemented!() }
+    //@@ BinaryOperator::get_priority
 }
